@@ -606,7 +606,7 @@ pub fn call_shapes<O: Shapes + ?Sized>(rv: &mut Recv<O>, mi: usize, a: &mut A) -
 
 // IntRes -------------------------------------------------------------------------------------
 
-pub const INTRES: [Meth; 8] = [m("ir_io"), m("ir_io_unit"), m("ir_unit_err"), m("ir_fmt"), m("ir_my"), m("ir_vec"), m("ir_plain"), m("ir_alias")];
+pub const INTRES: [Meth; 10] = [m("ir_io"), m("ir_io_unit"), m("ir_unit_err"), m("ir_fmt"), m("ir_my"), m("ir_vec"), m("ir_plain"), m("ir_alias"), m("ir_one"), m("ir_one_unit")];
 
 fn io_ret(requested: i32, non_os: bool, e: std::io::Error) -> Ret {
     if !non_os && requested != 0 {
@@ -651,6 +651,14 @@ pub fn call_intres<O: IntRes + ?Sized>(rv: &mut Recv<O>, mi: usize, a: &mut A) -
         6 => match need_mut!(rv).ir_plain(a.i32(0)) {
             Ok(v) => Ret::Ok_(Box::new(Ret::U(v))),
             Err(e) => Ret::Err_(Box::new(Ret::I(e as i64))),
+        },
+        8 => match rv.r().ir_one(a.i32(0)) {
+            Ok(v) => Ret::Ok_(Box::new(Ret::U(v))),
+            Err(e) => Ret::Err_(Box::new(Ret::I(if e.0 == 0 { 0x7777 } else { e.0 } as i64))),
+        },
+        9 => match need_mut!(rv).ir_one_unit(a.i32(0)) {
+            Ok(()) => Ret::Ok_(Box::new(Ret::Unit)),
+            Err(e) => Ret::Err_(Box::new(Ret::I(if e.0 == 0 { 0x7777 } else { e.0 } as i64))),
         },
         7 => match rv.r().ir_alias(a.i32(0)) {
             Ok(v) => Ret::Ok_(Box::new(Ret::U(v))),
